@@ -17,7 +17,7 @@ from concurrent.futures import ProcessPoolExecutor
 
 from . import gen
 from .container import FileGen, encode_file
-from .encode import kd_buf
+from .encode import kd_buf, encode_v2
 from .pairing import World
 from .tlc import run_tlc, validate_observations
 
@@ -48,10 +48,19 @@ class CountingReader(io.BytesIO):
 
     def read(self, n=-1):
         self.calls += 1
-        self.nbytes += max(n if n is not None else 0, 0)
         if self.calls > self.budget:
             raise Budget()
-        return super().read(n)
+        b = super().read(n)
+        self.nbytes += len(b)        # the amount actually READ (a large request on a short stream reads what is there)
+        return b
+
+    def readinto(self, buf):
+        self.calls += 1
+        if self.calls > self.budget:
+            raise Budget()
+        n = super().readinto(buf)
+        self.nbytes += n or 0
+        return n
 
 
 def render(item):
@@ -198,6 +207,45 @@ def run(ctx):
                       '%s of a %d-byte dump cut at %d (inside segment %s): %s; reported %d of %d, calls=%d'
                       % (o['api'], len(blobs[fid]), o['cut'], seg, clause, o['n'], o['full'], o['calls']),
                       {'kind': 'cut', 'api': o['api'], 'cut': o['cut'], 'file_hex': blobs[fid].hex()})
+    # SCALE: version-2 dumps with as many records as the size-like constants of the reader sources suggest (a block of records
+    # read at once, a reused buffer ...) and half as many again, cut inside records near the end, inside the hinted block
+    # boundary and early: complete records only, a prefix of the complete dump's events
+    from . import mine
+    from pykdebugparser.pykdebugparser import PyKdebugParser as _P
+    nscale = 0
+    hints = sorted({h for h in mine.size_hints(64, hi=(1 << 17)) if h >= 1024} | {h // 64 for h in mine.size_hints(1 << 16) if h % 64 == 0 and h // 64 >= 1024})
+    for h in hints[-3:] if ctx.quick else hints:
+        n_ = h + h // 2 + 3
+        rec0 = bytearray(kd_buf(1, tid=7, debugid=0x1234500, data=bytes(32)))
+        body = bytearray()
+        for k in range(n_):
+            rec0[0:8] = struct.pack('<Q', 1000 + k)
+            rec0[8:16] = struct.pack('<Q', (k * 0x9e3779b97f4a7c15) & ((1 << 64) - 1))
+            body += rec0
+        blob, _lay = encode_v2([(7, 70, b'proc', b'')], 0, [])
+        hdr = len(blob)
+        blob = blob + bytes(body)
+        full = [tuple(e) for e in _P().kevents(io.BytesIO(blob))]
+        if len(full) != n_:
+            ctx.violation('C06/scale/complete', 'a version-2 dump of %d records lists %d events' % (n_, len(full)), {'kind': 'scale', 'records': n_})
+            continue
+        for cut in sorted({hdr + 64 * (n_ - 1) + 30, hdr + 64 * h + 17, hdr + 64 * (h + h // 4) + 63, hdr + 64 * (h - 1) + 1, hdr + 64 * 10 + 5}):
+            got, err = [], None
+            try:
+                for e in _P().kevents(io.BytesIO(blob[:cut])):
+                    got.append(tuple(e))
+            except Exception as ex:
+                err = ex
+            nscale += 1
+            whole = (cut - hdr) // 64
+            if got != full[:len(got)]:
+                ctx.violation('C06/scale/not-a-prefix', 'a %d-record dump cut at byte %d (record %d + %d bytes): the %d events listed are not a prefix of the complete dump\'s'
+                              % (n_, cut, whole, (cut - hdr) % 64, len(got)), {'kind': 'scale', 'records': n_, 'cut': cut})
+            elif len(got) > whole:
+                ctx.violation('C06/scale/fabricated-from-partial-record', 'a %d-record dump cut at byte %d holds %d complete records, %d events were listed'
+                              % (n_, cut, whole, len(got)), {'kind': 'scale', 'records': n_, 'cut': cut})
+    ctx.extra['scale_cuts'] = nscale
+    ctx.extra['scale_record_counts'] = [h + h // 2 + 3 for h in (hints[-3:] if ctx.quick else hints)]
     # print_with_count: limiting the count never changes the lines printed
     from pykdebugparser.__main__ import print_with_count
     from pykdebugparser.pykdebugparser import PyKdebugParser
